@@ -404,6 +404,12 @@ impl<T: Config> P2PSession<T> {
         // check time sync between clients and send wait recommendation, if appropriate
         self.check_wait_recommendation();
 
+        // wait recommendations and desync notifications are queued outside of handle_event():
+        // keep the documented bound for a user that never drains the events
+        while self.event_queue.len() > MAX_EVENT_QUEUE_SIZE {
+            self.event_queue.pop_front();
+        }
+
         Ok(requests)
     }
 
